@@ -88,7 +88,7 @@ STACK_PROPS = {"C14", "C18", "C08"}
 SOLVE_PROPS = {"C01", "C07", "C08", "C12", "C13"}
 # checks whose histories alternate between the library's own dense kernels and the USE_VENDOR_BLAS configuration, and use small 2-D blocking
 # cut-offs in a third of their scripts (the drivers' solve properties; the factorization itself is covered in both configurations by C02)
-VENDOR_PROPS = set()      # see DESIGN 11: one unreproduced rejection (leads/): switched off until understood; C02 keeps the vendor configuration
+VENDOR_PROPS = {"C01", "C07"}
 RHS_SHAPES = ("one", "multi", "multi_pad", "zero")
 
 
